@@ -14,6 +14,10 @@ From ReqV Require Export Lib.Bytes Model.H1Resp.
 Definition conn_bufsize : nat := 4096.
 Definition max_1xx_responses : nat := 5.
 
+(* readLoop: `resp.StatusCode <= 199` ends the connection - a terminal response with such a
+   status (101 that is not a protocol switch, 0xx) is never followed by reuse *)
+Definition no_reuse_status_bound : Z := 199.
+
 Definition is_1xx_nonterminal (code : Z) : bool :=
   (100 <=? code)%Z && (code <=? 199)%Z && negb (code =? 101)%Z.
 
@@ -48,7 +52,7 @@ Definition client_read (meth : bytes) (s : bytes) : option client_view :=
   | FhOk r rest =>
       let b := read_body conn_bufsize r rest in
       Some {| cv_resp := r; cv_body := b;
-              cv_reusable := negb (r_close r) && (199 <? r_code r)%Z &&
+              cv_reusable := negb (r_close r) && (no_reuse_status_bound <? r_code r)%Z &&
                              (match b_end b with BOk => true | _ => false end) &&
                              is_nil (b_rest b) |}
   | _ => None
@@ -68,7 +72,7 @@ Definition client_read (meth : bytes) (s : bytes) : option client_view :=
 Definition policy := resp -> body_result -> bool.
 
 Definition reuse_without_buffer_check : policy := fun r b =>
-  negb (r_close r) && (199 <? r_code r)%Z && (match b_end b with BOk => true | _ => false end).
+  negb (r_close r) && (no_reuse_status_bound <? r_code r)%Z && (match b_end b with BOk => true | _ => false end).
 Definition reuse_real : policy := fun r b =>
   reuse_without_buffer_check r b && is_nil (b_rest b).
 
